@@ -4,6 +4,12 @@
 #include "vf_contract.hpp"
 #include "vf_algo.hpp"
 
+#include <limits>
+
+#ifndef C06_NUM_MOVEONLY
+    #define C06_NUM_MOVEONLY 0
+#endif
+
 namespace c06 {
 
 using LL  = long long;
@@ -262,13 +268,405 @@ void t_iota(Ctx& c)
     k_iota<KRa>(c);
 }
 
+// ---------------------------------------------------------------- value category / copies of the accumulator in the folds
+// C++20 [accumulate] [inner.product] [partial.sum] [adjacent.difference]: acc = op(std::move(acc), x) resp. op(val, std::move(acc)).
+// Acc records copies and moves; the operations are overloaded on the category of the accumulator argument and log it.
+struct AccStats {
+    long copies = 0;
+    long moves  = 0;
+    std::vector<long> cat; // 1 = accumulator received as rvalue, 0 = as lvalue, one entry per application
+};
+inline AccStats& acc_stats()
+{
+    static AccStats s;
+    return s;
+}
+struct Acc {
+    LL v = 0;
+    Acc() = default;
+    explicit Acc(LL x) : v(x) { }
+    Acc(Acc const& o) : v(o.v) { ++acc_stats().copies; }
+    Acc(Acc&& o) noexcept : v(o.v) { ++acc_stats().moves; }
+    Acc& operator=(Acc const& o)
+    {
+        v = o.v;
+        ++acc_stats().copies;
+        return *this;
+    }
+    Acc& operator=(Acc&& o) noexcept
+    {
+        v = o.v;
+        ++acc_stats().moves;
+        return *this;
+    }
+};
+inline bool same_obj(Acc const& a, Acc const& b) { return a.v == b.v; }
+template <>
+inline Acc guard_value<Acc>(int i)
+{
+    return Acc{1000003LL + i};
+}
+template <>
+inline Acc fresh_value<Acc>()
+{
+    return Acc{-5};
+}
+// acc (+) element, element = LL
+inline Acc operator+(Acc&& a, LL x)
+{
+    acc_stats().cat.push_back(1);
+    return Acc{a.v * 3 + x};
+}
+inline Acc operator+(Acc const& a, LL x)
+{
+    acc_stats().cat.push_back(0);
+    return Acc{a.v * 3 + x};
+}
+// partial_sum over Acc elements: acc + element
+inline Acc operator+(Acc&& a, Acc const& x)
+{
+    acc_stats().cat.push_back(1);
+    return Acc{a.v * 3 + x.v};
+}
+inline Acc operator+(Acc const& a, Acc const& x)
+{
+    acc_stats().cat.push_back(0);
+    return Acc{a.v * 3 + x.v};
+}
+// adjacent_difference over Acc elements: val - std::move(acc)
+inline Acc operator-(Acc const& val, Acc&& prev)
+{
+    acc_stats().cat.push_back(1);
+    return Acc{val.v * 2 - prev.v};
+}
+inline Acc operator-(Acc const& val, Acc const& prev)
+{
+    acc_stats().cat.push_back(0);
+    return Acc{val.v * 2 - prev.v};
+}
+struct CatFold { // op(acc, x)
+    Acc operator()(Acc&& a, LL x) const
+    {
+        acc_stats().cat.push_back(1);
+        return Acc{a.v * 3 + x};
+    }
+    Acc operator()(Acc const& a, LL x) const
+    {
+        acc_stats().cat.push_back(0);
+        return Acc{a.v * 3 + x};
+    }
+    Acc operator()(Acc&& a, Acc const& x) const
+    {
+        acc_stats().cat.push_back(1);
+        return Acc{a.v * 3 + x.v};
+    }
+    Acc operator()(Acc const& a, Acc const& x) const
+    {
+        acc_stats().cat.push_back(0);
+        return Acc{a.v * 3 + x.v};
+    }
+};
+struct CatDiff { // op(val, acc)
+    Acc operator()(Acc const& val, Acc&& prev) const
+    {
+        acc_stats().cat.push_back(1);
+        return Acc{val.v * 2 - prev.v};
+    }
+    Acc operator()(Acc const& val, Acc const& prev) const
+    {
+        acc_stats().cat.push_back(0);
+        return Acc{val.v * 2 - prev.v};
+    }
+};
+struct Prod {
+    LL operator()(LL x, LL y) const { return x * 2 - y; }
+};
+// move-only accumulator, operation takes it by value
+struct MAcc {
+    LL v;
+    explicit MAcc(LL x) : v(x) { }
+    MAcc(MAcc&&)                 = default;
+    MAcc& operator=(MAcc&&)      = default;
+    MAcc(MAcc const&)            = delete;
+    MAcc& operator=(MAcc const&) = delete;
+};
+inline MAcc operator+(MAcc a, LL x) { return MAcc{a.v * 3 + x}; }
+struct MFold {
+    MAcc operator()(MAcc a, LL x) const { return MAcc{a.v * 5 + x}; }
+};
+// iota with a class type that only offers pre-increment and a conversion to the element type
+struct Step {
+    LL v;
+    Step& operator++()
+    {
+        v += 3;
+        return *this;
+    }
+    Step operator++(int) = delete;
+    operator LL() const { return v; }
+};
+
+struct StatsSnap {
+    AccStats s;
+    static void reset() { acc_stats() = AccStats{}; }
+    static AccStats take()
+    {
+        AccStats r = acc_stats();
+        reset();
+        return r;
+    }
+};
+inline void cmp_stats(Trial& t, AccStats const& e, AccStats const& s)
+{
+    t.nums("accumulator-value-category-per-application(1=rvalue)", e.cat, s.cat);
+    t.off("accumulator-copies", e.copies, s.copies);
+}
+
+template <typename K>
+void k_category(Ctx& c)
+{
+    Num const m         = values_of(c.a);
+    Num const y         = values_of(Seq(c.a.rbegin(), c.a.rend()), 5);
+    std::size_t const n = m.size();
+    std::vector<Acc> am;
+    for (LL v : m) { am.push_back(Acc{v}); }
+    for (Pres pr : pres_for<K>(n)) {
+#define CATTRIAL(OPNAME, H, STDCALL, ETLCALL)                                                                          \
+    do {                                                                                                               \
+        StatsSnap::reset();                                                                                            \
+        LL exp_       = (STDCALL).v;                                                                                   \
+        AccStats ss_  = StatsSnap::take();                                                                             \
+        Trial t(c, K::name, OPNAME, pr, "class-accumulator", H, "vals=%s", shown(m).c_str());                          \
+        Range<LL> r(m, pr, false), r2(y, pr, false);                                                                   \
+        StatsSnap::reset();                                                                                            \
+        LL obs_      = t.call([&] { return ETLCALL; }).v;                                                              \
+        AccStats es_ = StatsSnap::take();                                                                              \
+        t.off("ret", obs_, exp_);                                                                                      \
+        cmp_stats(t, es_, ss_);                                                                                        \
+        t.guards(r);                                                                                                   \
+        t.guards(r2);                                                                                                  \
+        t.done();                                                                                                      \
+    } while (0)
+        CATTRIAL("accumulate(f,l,init)", 101, std::accumulate(m.begin(), m.end(), Acc{7}), etl::accumulate(B<K>(r), E<K>(r), Acc{7}));
+        CATTRIAL("accumulate(f,l,init,op)", 102, std::accumulate(m.begin(), m.end(), Acc{7}, CatFold{}), etl::accumulate(B<K>(r), E<K>(r), Acc{7}, CatFold{}));
+        CATTRIAL("inner_product(f1,l1,f2,init)", 103, std::inner_product(m.begin(), m.end(), y.begin(), Acc{7}),
+            etl::inner_product(B<K>(r), E<K>(r), B<K>(r2), Acc{7}));
+        CATTRIAL("inner_product(f1,l1,f2,init,op1,op2)", 104, std::inner_product(m.begin(), m.end(), y.begin(), Acc{7}, CatFold{}, Prod{}),
+            etl::inner_product(B<K>(r), E<K>(r), B<K>(r2), Acc{7}, CatFold{}, Prod{}));
+#undef CATTRIAL
+        // partial_sum / adjacent_difference: the running value has the input's value type (Acc elements)
+        for (int which = 0; which < 4; ++which) {
+            static char const* const nm[] = {"partial_sum(f,l,d)", "partial_sum(f,l,d,op)", "adjacent_difference(f,l,d)", "adjacent_difference(f,l,d,op)"};
+            std::vector<Acc> exp(n);
+            StatsSnap::reset();
+            switch (which) {
+            case 0: std::partial_sum(am.begin(), am.end(), exp.begin()); break;
+            case 1: std::partial_sum(am.begin(), am.end(), exp.begin(), CatFold{}); break;
+            case 2: std::adjacent_difference(am.begin(), am.end(), exp.begin()); break;
+            default: std::adjacent_difference(am.begin(), am.end(), exp.begin(), CatDiff{}); break;
+            }
+            AccStats ss = StatsSnap::take();
+            Trial t(c, K::name, nm[which], pr, "class-accumulator", 120 + which, "vals=%s", shown(m).c_str());
+            Range<Acc> r(am, pr, false);
+            Sink<Acc> s(n, pr);
+            StatsSnap::reset();
+            auto ret = t.call([&] {
+                switch (which) {
+                case 0: return etl::partial_sum(B<K>(r), E<K>(r), s.r.lo);
+                case 1: return etl::partial_sum(B<K>(r), E<K>(r), s.r.lo, CatFold{});
+                case 2: return etl::adjacent_difference(B<K>(r), E<K>(r), s.r.lo);
+                default: return etl::adjacent_difference(B<K>(r), E<K>(r), s.r.lo, CatDiff{});
+                }
+            });
+            AccStats es = StatsSnap::take();
+            t.off("ret", ret - s.r.lo, (long)n);
+            Num got, want;
+            for (std::size_t i = 0; i < n; ++i) {
+                got.push_back(s.r.lo[i].v);
+                want.push_back(exp[i].v);
+            }
+            t.nums("output", got, want);
+            cmp_stats(t, es, ss);
+            t.guards(r);
+            t.guards(s.r, "output");
+            t.done();
+        }
+        // reduce / transform_reduce with a class accumulator: only the value is specified (GENERALIZED_SUM)
+        {
+            struct AddAcc {
+                Acc operator()(Acc const& a, Acc const& b) const { return Acc{a.v + b.v + 1}; }
+                Acc operator()(Acc const& a, LL b) const { return Acc{a.v + b + 1}; }
+                Acc operator()(LL a, Acc const& b) const { return Acc{a + b.v + 1}; }
+                Acc operator()(LL a, LL b) const { return Acc{a + b + 1}; }
+            };
+            LL exp = 7;
+            for (LL v : m) { exp = exp + v + 1; }
+            Trial t(c, K::name, "reduce(f,l,init,op)", pr, "class-accumulator", 130, "vals=%s", shown(m).c_str());
+            Range<LL> r(m, pr, false);
+            LL obs = t.call([&] { return etl::reduce(B<K>(r), E<K>(r), Acc{7}, AddAcc{}).v; });
+            t.off("ret", obs, exp);
+            t.done();
+        }
+    }
+}
+// move-only accumulators (no copy may happen anywhere); separate unit (-DC06_NUM_MOVEONLY=1) so that an
+// implementation that copies is a keyed compile-failure of its own and the category checks above keep running
+#if C06_NUM_MOVEONLY
+template <typename K>
+void k_moveonly_acc(Ctx& c)
+{
+    Num const m         = values_of(c.a);
+    Num const y         = values_of(Seq(c.a.rbegin(), c.a.rend()), 5);
+    std::size_t const n = m.size();
+    for (Pres pr : pres_for<K>(n)) {
+        // move-only accumulators (no copy may happen anywhere)
+        {
+            LL exp = std::accumulate(m.begin(), m.end(), MAcc{7}).v;
+            Trial t(c, K::name, "accumulate(f,l,init)", pr, "move-only-accumulator", 111, "vals=%s", shown(m).c_str());
+            Range<LL> r(m, pr, false);
+            LL obs = t.call([&] { return etl::accumulate(B<K>(r), E<K>(r), MAcc{7}).v; });
+            t.off("ret", obs, exp);
+            t.done();
+        }
+        {
+            LL exp = std::accumulate(m.begin(), m.end(), MAcc{7}, MFold{}).v;
+            Trial t(c, K::name, "accumulate(f,l,init,op)", pr, "move-only-accumulator", 112, "vals=%s", shown(m).c_str());
+            Range<LL> r(m, pr, false);
+            LL obs = t.call([&] { return etl::accumulate(B<K>(r), E<K>(r), MAcc{7}, MFold{}).v; });
+            t.off("ret", obs, exp);
+            t.done();
+        }
+        {
+            LL exp = std::inner_product(m.begin(), m.end(), y.begin(), MAcc{7}).v;
+            Trial t(c, K::name, "inner_product(f1,l1,f2,init)", pr, "move-only-accumulator", 113, "vals=%s", shown(m).c_str());
+            Range<LL> r(m, pr, false), r2(y, pr, false);
+            LL obs = t.call([&] { return etl::inner_product(B<K>(r), E<K>(r), B<K>(r2), MAcc{7}).v; });
+            t.off("ret", obs, exp);
+            t.done();
+        }
+        {
+            LL exp = std::inner_product(m.begin(), m.end(), y.begin(), MAcc{7}, MFold{}, Prod{}).v;
+            Trial t(c, K::name, "inner_product(f1,l1,f2,init,op1,op2)", pr, "move-only-accumulator", 114, "vals=%s", shown(m).c_str());
+            Range<LL> r(m, pr, false), r2(y, pr, false);
+            LL obs = t.call([&] { return etl::inner_product(B<K>(r), E<K>(r), B<K>(r2), MAcc{7}, MFold{}, Prod{}).v; });
+            t.off("ret", obs, exp);
+            t.done();
+        }
+    }
+}
+void t_moveonly_acc(Ctx& c)
+{
+    k_moveonly_acc<KPtr>(c);
+    k_moveonly_acc<KIn>(c);
+}
+#endif
+void t_category(Ctx& c)
+{
+    k_category<KPtr>(c);
+    k_category<KIn>(c);
+}
+void t_iota_class(Ctx& c)
+{
+    Num const m         = values_of(c.a);
+    std::size_t const n = m.size();
+    for (Pres pr : pres_for<KFwd>(n)) {
+        Num exp = m;
+        std::iota(exp.begin(), exp.end(), Step{-4});
+        Trial t(c, "fwd_it", "iota(f,l,v)", pr, "class-value(pre-increment only)", 140, "-");
+        Range<LL> r(m, pr, true);
+        t.call([&] { etl::iota(B<KFwd>(r), E<KFwd>(r), Step{-4}); });
+        t.nums("range", r.get(), exp);
+        t.guards(r);
+        t.done();
+    }
+}
+
+// ---------------------------------------------------------------- gcd / lcm with mixed argument types
+// [numeric.ops.gcd]: |m| and |n| are taken first, the result has the common type.  Calls are only made when the
+// standard defines them (|m|, |n| and for lcm the result representable in the common type).
+template <typename M, typename N>
+void gcd_pair(Ctx& c, char const* kind, M mv, N nv)
+{
+    using R = std::common_type_t<M, N>;
+    __int128 const am = mv < 0 ? -(__int128)mv : (__int128)mv;
+    __int128 const an = nv < 0 ? -(__int128)nv : (__int128)nv;
+    __int128 const rmax = (__int128)std::numeric_limits<R>::max();
+    if (am > rmax || an > rmax) { return; }
+    char args[96];
+    std::snprintf(args, sizeof args, "m=%lld n=%llu%s", (long long)mv, (unsigned long long)nv, std::is_signed_v<N> ? " (n signed)" : "");
+    char const* sit = (mv < 0 || nv < 0) ? "negative-argument" : ((mv == 0 || nv == 0) ? "zero-argument" : "positive");
+    {
+        R exp = std::gcd(mv, nv);
+        Trial t(c, kind, "gcd(m,n)", Pres::exact, sit, vf::mix((std::uint64_t)mv, (std::uint64_t)nv), "%s", args);
+        R obs = etl::gcd(mv, nv);
+        static_assert(std::is_same_v<decltype(etl::gcd(mv, nv)), R>);
+        if (obs != exp) { vf::diverge("ret:differs", std::to_string((long long)obs) + "/" + std::to_string((unsigned long long)obs), std::to_string((long long)exp) + "/" + std::to_string((unsigned long long)exp)); }
+        t.done();
+    }
+    {
+        __int128 g = am, h = an;
+        while (h != 0) {
+            __int128 r = g % h;
+            g          = h;
+            h          = r;
+        }
+        __int128 l = g == 0 ? 0 : am / g * an;
+        if (l > rmax) { return; }
+        R exp = std::lcm(mv, nv);
+        Trial t(c, kind, "lcm(m,n)", Pres::exact, sit, vf::mix((std::uint64_t)mv, (std::uint64_t)nv) + 1, "%s", args);
+        R obs = etl::lcm(mv, nv);
+        static_assert(std::is_same_v<decltype(etl::lcm(mv, nv)), R>);
+        if (obs != exp) { vf::diverge("ret:differs", std::to_string((long long)obs) + "/" + std::to_string((unsigned long long)obs), std::to_string((long long)exp) + "/" + std::to_string((unsigned long long)exp)); }
+        t.done();
+    }
+}
+void t_gcd_lcm(Ctx& c)
+{
+    // the sequence selects the operands: keys index small tables of interesting values
+    static long long const sv[] = {-4, 6, 0, -6, 9, -1, 1, -12, 35, -2147483647LL - 1, 2147483647};
+    static unsigned long long const uv[] = {6, 4, 0, 9, 1, 12, 35, 2147483648ull, 4294967295ull, 10};
+    if (c.a.size() != 2 && c.a.size() != 3) { return; }
+    std::size_t base = c.a.size() == 2 ? 0 : 3;
+    for (std::size_t i = 0; i < sizeof sv / sizeof sv[0]; ++i) {
+        for (std::size_t j = 0; j < sizeof uv / sizeof uv[0]; ++j) {
+            if ((i + j + base) % 3 != (std::size_t)(c.a[0].key % 3) && c.enumerated) { continue; } // spread over the cases
+            long long s          = sv[i];
+            unsigned long long u = uv[j];
+            if (s >= -2147483647LL - 1 && s <= 2147483647 && u <= 4294967295ull) {
+                gcd_pair<int, unsigned>(c, "int,unsigned", (int)s, (unsigned)u);
+                gcd_pair<unsigned, int>(c, "unsigned,int", (unsigned)u, (int)s);
+                gcd_pair<int, unsigned long long>(c, "int,unsigned long long", (int)s, u);
+                gcd_pair<long long, unsigned>(c, "long long,unsigned", s, (unsigned)u);
+                if (u <= 2147483647ull) { gcd_pair<int, int>(c, "int,int", (int)s, (int)u); }
+            }
+            gcd_pair<long long, unsigned long long>(c, "long long,unsigned long long", s, u);
+            if (s >= -32768 && s <= 32767 && u <= 65535) {
+                gcd_pair<short, unsigned short>(c, "short,unsigned short", (short)s, (unsigned short)u);
+                gcd_pair<short, unsigned>(c, "short,unsigned", (short)s, (unsigned)u);
+            }
+            if (s >= -128 && s <= 127 && u <= 255) { gcd_pair<signed char, unsigned char>(c, "signed char,unsigned char", (signed char)s, (unsigned char)u); }
+        }
+    }
+}
+
+#if C06_NUM_MOVEONLY
+Test const kTests[] = {{"moveonly_acc", t_moveonly_acc}};
+#else
 Test const kTests[] = {
     {"fold", t_fold},
     {"scan", t_scan},
     {"iota", t_iota},
+    {"category", t_category},
+    {"iota_class", t_iota_class},
+    {"gcd_lcm", t_gcd_lcm},
 };
+#endif
 std::size_t const kNumTests = sizeof(kTests) / sizeof(kTests[0]);
 
 } // namespace c06
 
+#if C06_NUM_MOVEONLY
+C06_MAIN("C06_probe_numeric_moveonly_acc")
+#else
 C06_MAIN("C06_numeric")
+#endif
